@@ -18,6 +18,10 @@ from vlib import core
 from checks import configlang_common as cl
 
 UNKNOWN = "zz_unknown"
+# carrier "seconddoc": the unknown key (or a rule entry without action) in the 2nd, 3rd and 4th YAML document of the file, the
+# documents in between being empty in each of the four spellings (a loader that gives up at the first empty document, or looks
+# at one further document only, never reaches it)
+FURTHER_DOCS = {"MaxGap": 2, "EmptyDocs": '{"bare", "comment", "null", "end"}', "DocLoads": '{"key", "rule"}'}
 FILES = ["pipeline", "compiler", "veneers"]
 
 
@@ -87,10 +91,11 @@ def _declares(g, f, nid, k):
 
 
 def strict_witness(kl, f, at, nid):
-    """node kind that let an unknown key through ("second-document": a further YAML document of the file is never looked at);
+    """node kind that let an unknown key through ("second-document": a further YAML document of the file is never looked at;
+    "later-document": a document that comes after an empty document is never looked at, the one right after the configuration is);
     below a node decoded by a custom UnmarshalYAML it is that unmarshaler (a nested decoder is not strict: every node below
     it is lax because of it)"""
-    if nid == "second-document":
+    if nid in ("second-document", "later-document"):
         return nid
     for i in range(len(at) + 1):
         n = kl[f]["nodes"].get(walk(kl, f, at[:i]))
@@ -99,13 +104,19 @@ def strict_witness(kl, f, at, nid):
     return nid
 
 
+def further_document(doc):
+    """witness for what a further YAML document of the file holds: the document right after the configuration, or one that
+    stands behind at least one empty document (a loader may look at the former and still never reach the latter)"""
+    return "second-document" if doc == 2 else "later-document"
+
+
 def illegal_keys(g, f, nodes):
-    """[(at, key, node id)] for every key of the file that grammar g does not declare at its node (node id "second-document" for
-    the mapping nodes of a further YAML document of the file)"""
+    """[(at, key, node id)] for every key of the file that grammar g does not declare at its node (node id "second-document" /
+    "later-document" for the mapping nodes of a further YAML document of the file)"""
     out = []
     for n in nodes:
         if n.get("doc", 1) > 1:
-            out += [(n["at"], k, "second-document") for k in n["keys"]
+            out += [(n["at"], k, further_document(n["doc"])) for k in n["keys"]
                     for nid2 in [walk(g, f, n["at"])] if nid2 != "free" and not _declares(g, f, nid2, k)]
             continue
         nid = walk(g, f, n["at"])
@@ -128,13 +139,16 @@ RULE_LISTS = {"compiler": ["passes"], "veneers": ["builders", "options"]}
 def empty_rule_entries(r):
     """[(rule list, "" | ":null")] for the entries of rule lists that have no key at all"""
     out = []
-    doc = r["doc"] if isinstance(r["doc"], dict) else {}
-    for lst in RULE_LISTS.get(r["file"], []):
-        for e in doc.get(lst) or []:
-            if e is None:
-                out.append((lst + "[]", ":null"))
-            elif e == {}:
-                out.append((lst + "[]", ""))
+    for i, doc in enumerate([r["doc"]] + list(r.get("extra") or []), start=1):
+        if not isinstance(doc, dict):
+            continue
+        where = "" if i == 1 else further_document(i) + ":"
+        for lst in RULE_LISTS.get(r["file"], []):
+            for e in doc.get(lst) or []:
+                if e is None:
+                    out.append((where + lst + "[]", ":null"))
+                elif e == {}:
+                    out.append((where + lst + "[]", ""))
     return out
 
 
@@ -306,7 +320,7 @@ class Run:
     def generate(self, name, consts):
         """one exhaustive TLC run of the generator; returns (tlc result, DIFF list)"""
         c = {"MaxVisits": 1, "MaxInject": 1, "MaxPos": 0, "MaxSteps": 99, "Slice": 0, "NSlices": 1, "Styles": '{"fresh"}',
-             "Forms": '{}', "Carriers": '{"plain"}'}
+             "Forms": '{}', "Carriers": '{"plain"}', "MaxGap": 0, "EmptyDocs": '{"bare"}', "DocLoads": '{"key"}'}
         c.update(consts)
         r = self.ctx.run_tlc("ConfigLangMC", "ConfigLangMC.cfg", workers=8, timeout=2400, files=self.gfiles(), constants=c)
         diffs = list(core.tagged_lines(r["out"], "DIFF"))
@@ -412,6 +426,15 @@ class Run:
             return
         if c["carrier"] != "plain":
             self.count(f, "carrier-" + c["carrier"])
+        if c["carrier"] == "seconddoc":
+            t = c["tail"]
+            self.count(f, "further-document-%d%s" % (t["gap"] + 2, "-empty-rule" if t["load"] else ""))
+            if t["gap"]:
+                self.count(f, "empty-document-" + t["empty"])
+            if r["loader"]["class"] not in ("ok", "key", "empty", "document"):
+                # the file must be a well-formed YAML stream whose only fault is what the further document holds
+                self.inconclusive.append("a multi-document file was rejected for a reason that is not about its documents or keys: %s\n%s"
+                                         % (r["loader"]["err"][:200], r["yaml"][:300]))
         if c["form"] != "map" and not c["emptyrule"]:
             self.count(f, "value-%s%s" % (c["form"], "" if c["expl"] else "-leaves-rule-without-action"))
         if c["emptyrule"] and not c["inj"]:
@@ -480,7 +503,7 @@ def run(ctx):
     # (A) TLC enumerates the documents; (B) the worker pushes each through the real loaders
     if quick:
         plans = [("base", {"MaxVisits": 1, "Styles": '{"fresh", "case", "midcase", "param"}', "Forms": '{"null", "empty"}',
-                           "Carriers": '{"plain", "merge", "bom", "seconddoc"}'}),
+                           "Carriers": '{"plain", "merge", "bom", "seconddoc"}', **FURTHER_DOCS}),
                  # an EMPTY rule first, in the middle and last among valid rules, in every rule list (a conversion loop that
                  # lets a later valid rule wipe the error of an earlier empty one only shows when the empty rule is not last)
                  ("empty-rule-positions", {"MaxVisits": 1, "MaxPos": 2, "MaxSteps": 2, "Forms": '{"null"}', "_siblings": True}),
@@ -494,7 +517,7 @@ def run(ctx):
         plans = [("deep", {"MaxVisits": 2}),
                  ("deeper-compiler", {"MaxVisits": 3, "Files": '{"compiler"}'}),
                  ("two-injections", {"MaxVisits": 1, "MaxInject": 2, "Styles": '{"fresh", "case", "midcase", "param"}',
-                                     "Forms": '{"null", "empty"}', "Carriers": '{"plain", "merge", "bom", "seconddoc"}'}),
+                                     "Forms": '{"null", "empty"}', "Carriers": '{"plain", "merge", "bom", "seconddoc"}', **FURTHER_DOCS}),
                  ("positions", {"MaxVisits": 1, "MaxPos": 2, "Forms": '{"null"}', "_siblings": True})]
     all_diffs = {}
     ncases = 0
@@ -621,6 +644,13 @@ def vacuity(run_, quick):
         for a in need:
             if c.get(a, 0) == 0:
                 out.append("%s/%s never exercised" % (f, a))
+        for d in (2, 3, 4):
+            for load in ("", "-empty-rule") if f != "pipeline" else ("",):
+                if c.get("further-document-%d%s" % (d, load), 0) == 0:
+                    out.append("%s/further-document-%d%s never exercised" % (f, d, load))
+        for e in ("bare", "comment", "null", "end"):
+            if c.get("empty-document-" + e, 0) == 0:
+                out.append("%s/empty-document-%s never exercised" % (f, e))
         if f != "pipeline":
             if c.get("empty-rule", 0) == 0:
                 out.append("%s/empty-rule never exercised" % f)
